@@ -119,6 +119,12 @@ def handle (args : List String) : String :=
       let table : Nat → Option Nat := fun i => if ts.contains i then some 0 else none
       toString (newJobID table ds)
     | _, _ => "bad-op"
+  | ["resync", tab, id] =>
+    match natsOf tab, natOf id with
+    | some ts, some i =>
+      let table : Nat → Option Nat := fun k => if ts.contains k then some 0 else none
+      if resyncApplied table i then "applied" else "ignored"
+    | _, _ => "bad-op"
   | _ => "bad-op"
 
 end XMT.Drv.C14
